@@ -91,8 +91,22 @@ impl Check for C14 {
                             let a = Scene { w, h, dst: dst.clone(), ops: vec![fast.clone()] };
                             let b = Scene { w, h, dst: dst.clone(), ops: vec![general] };
                             one(run, si, l, "fill_rect-vs-path-fill", a.clone(), b, si == 9 && ri == 1234 && alpha == 0.5);
-                            let c = Scene { w, h, dst: dst.clone(), ops: vec![cover_clip(w, h), fast, Op::PopClip] };
+                            let c = Scene { w, h, dst: dst.clone(), ops: vec![cover_clip(w, h), fast.clone(), Op::PopClip] };
                             one(run, si, l, "fill_rect-vs-under-covering-clip", a, c, false);
+                            // the same equivalence while drawing into a layer: a full-size one, and one
+                            // narrower than the surface whose outer clip has been popped again ("no clip")
+                            if ri % 7 == (si % 7) {
+                                let general2 = Op::Fill(PathSpec::rect(x as f32, y as f32, rw as f32, rh as f32), src.clone(), o);
+                                for pre in [vec![Op::PushLayer(0.5, BlendMode::SrcOver)], vec![Op::PushClipRect(1, 0, w, h - 1), Op::PushLayer(1.0, BlendMode::SrcOver), Op::PopClip]] {
+                                    let mut oa = pre.clone();
+                                    oa.push(fast.clone());
+                                    oa.push(Op::PopLayer);
+                                    let mut ob = pre.clone();
+                                    ob.push(general2.clone());
+                                    ob.push(Op::PopLayer);
+                                    one(run, si, l, "fill_rect-vs-path-fill-inside-layer", Scene { w, h, dst: dst.clone(), ops: oa }, Scene { w, h, dst: dst.clone(), ops: ob }, false);
+                                }
+                            }
                         }
                     }
                     if run.expired() {
